@@ -158,17 +158,20 @@ def refByTime (a : Asset) (ref r : Rep) (cfg : Cfg) (t nowMS : Nat) : Lookup :=
                       newTime := wraps * ref.dur + s.start, newDur := (s.stop - s.start) % 4294967296, T := ref.T }
     | st => .status st
 
+/-- the reference-segment lookup of the audio branch of `createOutSeg` -/
+def audioLookup (a : Asset) (ref r : Rep) (cfg : Cfg) (segId nowMS : Nat) : Lookup :=
+  match cfg.mpdType with
+  | .timelineTime => refByTime a ref r cfg segId nowMS
+  | _ =>
+    let nr := segId % 4294967296
+    if nr < cfg.startNr % 4294967296 then .status .notFound else byNr a ref cfg nr nowMS   -- (`fix:` commit: 404 guard)
+
 /-- the audio branch of `createOutSeg` -/
 def audioSegment (a : Asset) (r : Rep) (cfg : Cfg) (segId nowMS : Nat) : AudioSeg ⊕ Status :=
   match a.ref? with
   | none => .inr .panic
   | some ref =>
-    let look := match cfg.mpdType with
-      | .timelineTime => refByTime a ref r cfg segId nowMS
-      | _ =>
-        let nr := segId % 4294967296
-        if nr < cfg.startNr % 4294967296 then .status .notFound else byNr a ref cfg nr nowMS   -- (`fix:` commit: 404 guard)
-    match look with
+    match audioLookup a ref r cfg segId nowMS with
     | .status s => .inr s
     | .found m =>
       if ref.dur = 0 ∨ ref.T = 0 then .inr .panic else
